@@ -84,9 +84,18 @@ Ovf10b == Rep(9, 255) \o <<3>>                             \* 10th byte 3: 2^64-
 Ovf11 == Rep(10, 128) \o <<1>>                             \* no termination within 10 bytes
 Huge == Rep(9, 255) \o <<1>>                               \* 2^64-1, a legal varint
 
-VarClasses == {"padval", "padkey", "padvalmax", "padkeymax", "wtbit2", "ovf10", "ovf10b", "ovf11", "trunc", "wrongnum", "wrongwt", "badwt", "missing", "dup"}
+\* numerals that are in shortest form but alias a legal one modulo 2^32 / 2^35 (a decoder that narrows a key or a length
+\* to 32 bits, or masks the field number, takes them for the legal numeral): key + 2^32, key + 2^35, length + 2^32
+PadTo(d, n) == d \o Rep(n - Len(d), 0)                     \* Len(d) <= n
+Plus2p32(d) == PadTo(d, 4) \o <<16 + (IF Len(d) = 5 THEN d[5] ELSE 0)>>      \* d < 2^32
+KeyHi32(num, wt) == Varint(Plus2p32(NatToNum(num * 8 + wt)))
+KeyHi35(num, wt) == Varint(PadTo(NatToNum(num * 8 + wt), 5) \o <<1>>)
+HiClasses == {"keyhi32", "keyhi35", "lenhi32"}              \* single deviations only (kept out of the pair product)
+
+VarClasses == {"padval", "padkey", "padvalmax", "padkeymax", "wtbit2", "ovf10", "ovf10b", "ovf11", "trunc", "wrongnum", "wrongwt", "badwt", "missing", "dup",
+               "keyhi32", "keyhi35"}
 LdClasses == {"padkey", "padlen", "padkeymax", "padlenmax", "wtbit2", "ovf10", "ovf10b", "ovf11", "trunc", "wrongnum", "wrongwt", "badwt", "missing", "dup",
-              "lenpast", "lenhuge", "lenshort"}
+              "lenpast", "lenhuge", "lenshort", "keyhi32", "keyhi35", "lenhi32"}
 StrClasses == LdClasses \cup {"badutf8", "badutf8b", "overlong", "nonnfc", "nonnfc2", "nfcok"}
 RepClasses == LdClasses \cup {"emptyelem"}
 ClassesOf(f) == IF f[2] = "uint" THEN VarClasses ELSE IF f[2] = "string" THEN StrClasses
@@ -109,6 +118,8 @@ DevVar(num, v, c) ==
     [] c = "wtbit2" -> Key(num, 4) \o V                       \* the right wire type with bit 2 set: 4 is not a wire type
     [] c = "missing" -> <<>>
     [] c = "dup" -> K \o V \o K \o V
+    [] c = "keyhi32" -> KeyHi32(num, 0) \o V
+    [] c = "keyhi35" -> KeyHi35(num, 0) \o V
 
 DevLd(num, d, c) ==
   LET K == Key(num, 2)  L == Varint(NatToNum(Len(d))) IN
@@ -130,6 +141,9 @@ DevLd(num, d, c) ==
     [] c = "lenpast" -> K \o Varint(NatToNum(Len(d) + 100)) \o d
     [] c = "lenhuge" -> K \o Huge \o d
     [] c = "lenshort" -> K \o (IF d = <<>> THEN <<0>> ELSE Varint(NatToNum(Len(d) - 1))) \o d
+    [] c = "keyhi32" -> KeyHi32(num, 2) \o L \o d
+    [] c = "keyhi35" -> KeyHi35(num, 2) \o L \o d
+    [] c = "lenhi32" -> K \o Varint(Plus2p32(NatToNum(Len(d)))) \o d
     [] c = "badutf8" -> K \o <<1, 255>>
     [] c = "badutf8b" -> K \o <<2, 195, 40>>
     [] c = "overlong" -> K \o <<2, 192, 175>>
@@ -138,11 +152,14 @@ DevLd(num, d, c) ==
     [] c = "nfcok" -> K \o <<2, 195, 169>>                     \* a different, canonical value
     [] c = "emptyelem" -> K \o L \o d \o K \o <<0>>            \* one more (empty) element: canonical for another value
 
-DevField(f, v, c) ==
+\* a repeated field deviates in its LAST element, or (first = TRUE: global deviation "first") in its FIRST one, so that
+\* canonical elements follow the deviant one
+DevField(f, v, c, first) ==
   IF f[2] = "uint" THEN DevVar(f[1], v, c)
   ELSE IF f[2] = "rbytes"
        THEN (IF c \in {"missing"} THEN <<>>
              ELSE IF v = <<>> THEN (IF c = "canon" THEN <<>> ELSE DevLd(f[1], <<>>, c))     \* deviant single element
+             ELSE IF first THEN DevLd(f[1], v[1], c) \o Flat([i \in 1..(Len(v) - 1) |-> DevLd(f[1], v[i + 1], "canon")])
              ELSE Flat([i \in 1..(Len(v) - 1) |-> DevLd(f[1], v[i], "canon")]) \o DevLd(f[1], v[Len(v)], c))
   ELSE DevLd(f[1], v, c)
 
@@ -150,11 +167,11 @@ DevField(f, v, c) ==
 Globals == {<<"none", 0>>, <<"trail0", 0>>, <<"trailkey", 0>>, <<"trailsig", 0>>, <<"lead0", 0>>}
            \cup {<<"cut", k>> : k \in 1..12} \cup {<<"swap", i>> : i \in 1..6}
 DevMsg(base, cls, g) ==
-  LET parts == [i \in 1..7 |-> DevField(TxSchema[i], base[i], cls[i])]
+  LET parts == [i \in 1..7 |-> DevField(TxSchema[i], base[i], cls[i], g[1] = "first")]
       order == IF g[1] = "swap" THEN [i \in 1..7 |-> IF i = g[2] THEN g[2] + 1 ELSE IF i = g[2] + 1 THEN g[2] ELSE i]
                ELSE [i \in 1..7 |-> i]
       m == Flat([i \in 1..7 |-> parts[order[i]]])
-  IN CASE g[1] \in {"none", "swap"} -> m
+  IN CASE g[1] \in {"none", "swap", "first"} -> m
        [] g[1] = "trail0" -> m \o <<0>>
        [] g[1] = "trailkey" -> m \o <<64, 0>>                    \* field 8, wire type 0, value 0
        [] g[1] = "trailsig" -> m \o <<58, 1, 77>>                \* one more signature: canonical for another value
@@ -164,12 +181,141 @@ DevMsg(base, cls, g) ==
 AllCanon == [i \in 1..7 |-> "canon"]
 ClassTuples(maxd) ==
   UNION { { [i \in 1..7 |-> IF i \in D THEN h[i] ELSE "canon"] :
-              h \in {hh \in [D -> StrClasses \cup VarClasses \cup RepClasses] : \A i \in D : hh[i] \in ClassesOf(TxSchema[i])} }
+              h \in {hh \in [D -> StrClasses \cup VarClasses \cup RepClasses] : \A i \in D : hh[i] \in ClassesOf(TxSchema[i]) /\ (Cardinality(D) >= 2 => hh[i] \notin HiClasses)} }
           : D \in {DD \in SUBSET (1..7) : Cardinality(DD) <= maxd} }
 DevChoices ==        \* (TLC evaluates constant definitions at start-up: keep this one empty in the other modes)
   IF Mode # "deviants" THEN {} ELSE
   {<<bi, cls, <<"none", 0>>>> : bi \in 1..NBase, cls \in ClassTuples(MaxDev)}
   \cup {<<bi, cls, g>> : bi \in 1..NBase, cls \in ClassTuples(1), g \in Globals \ {<<"none", 0>>}}
+  \cup {<<bi, cls, <<"first", 0>>>> : bi \in 1..NBase, cls \in {cc \in ClassTuples(1) : cc[7] # "canon"}}
+
+(* ------------- deviants of other strictly decoded schemas (S2) -------- *)
+\* The transaction schema has no bool, uint32, sint, nested or packed field, so the clauses "0/1 booleans", shortest
+\* varints inside packed arrays, nested messages that fill their length ... of the statement never meet a deviant byte
+\* through it.  S2 schemas: the parameters of a transaction as a module decodes them strictly (mock.DataSetParams:
+\* repeated nested + bool) and a synthetic schema with one field of every kind (harness/cmd/c08/synth.go, codec produced
+\* by the tree's own generator).  One deviation per message: field index fi (0 = whole message) and class c.
+S2Pair == <<F(1, "bytes"), F(2, "bytes")>>
+S2Params == << <<1, "rnested", S2Pair>>, F(2, "bool") >>
+SynInner == <<F(1, "uint"), F(2, "bytes")>>
+SynAll == << F(1, "uint"), F(2, "uint32"), F(3, "sint"), F(4, "sint"), F(5, "bool"), F(6, "bytes"), F(7, "string"),
+             <<8, "nested", SynInner>>, F(9, "ruint"), F(10, "ruint32"), F(11, "rsint"), F(12, "rbool"), F(13, "rbytes"),
+             F(14, "rstring"), <<15, "rnested", SynInner>>, F(300, "uint32") >>
+S2Schemas == <<S2Params, SynAll>>
+S2Names == <<"mock.DataSetParams", "synth.SynthAll">>
+MaxU64 == Rep(9, 127) \o <<1>>
+MaxU32 == <<127, 127, 127, 127, 15>>
+MinI64p1 == <<1, <<126>> \o Rep(8, 127)>>       \* -(2^63 - 1).  The minimum itself, <<1, Rep(9, 127)>>, is left to the harness
+                                                 \* (int64MinProbe, VERIF_EXPERIMENTAL): the real reader decodes it as 0
+S2Bases == <<
+  << << << << <<1, 2>>, <<3>> >>, << <<>>, <<9, 9, 9>> >> >>, 1 >>,
+     << <<>>, 0 >>,
+     << << << <<>>, <<>> >> >>, 1 >>,
+     << << << Rep(130, 255), <<0>> >>, << <<7>>, Rep(3, 128) >> >>, 0 >> >>,
+  << << <<5>>, <<0, 1>>, <<1, <<63>>>>, <<0, <<1>>>>, 1, <<1, 2, 3>>, <<116, 111, 107>>, << <<7>>, <<9, 9>> >>,
+        << <<1>>, <<0, 1>> >>, << <<>>, MaxU32 >>, << <<1, <<>>>>, <<0, <<0, 1>>>> >>, <<1, 0>>, << <<7, 7>>, <<>> >>,
+        << <<97>>, <<195, 169>> >>, << << <<>>, <<>> >>, << <<1>>, <<5>> >> >>, <<3>> >>,
+     << <<>>, <<>>, <<0, <<>>>>, <<0, <<>>>>, 0, <<>>, <<>>, << <<>>, <<>> >>,
+        <<>>, <<>>, <<>>, <<>>, <<>>, <<>>, <<>>, <<>> >>,
+     << MaxU64, MaxU32, MinI64p1, <<0, <<127, 127, 127, 127, 7>>>>, 0, Rep(130, 255), <<195, 169>>, << MaxU64, Rep(128, 7) >>,
+        << MaxU64 >>, << <<0, 0, 0, 0, 8>> >>, << MinI64p1, <<0, Rep(9, 127)>> >>, <<1>>, << Rep(64, 1) >>, << <<>> >>,
+        << << <<0, 1>>, <<1>> >> >>, MaxU32 >> >> >>
+
+BoolClasses == {"padkey", "padkeymax", "wtbit2", "trunc", "wrongnum", "wrongwt", "badwt", "missing", "dup", "keyhi32", "keyhi35",
+                "boolbad", "boolff", "boolpad"}
+NestClasses == LdClasses \cup {"inmissing", "intrail", "inpad", "inswap", "inlenpast"}
+PackClasses == LdClasses \cup {"emptypacked", "itempad", "itembad"}
+Classes2Of(f) == LET k == f[2] IN
+  CASE k \in {"uint", "sint"} -> VarClasses
+    [] k = "uint32" -> VarClasses \cup {"over32"}
+    [] k = "bool" -> BoolClasses
+    [] k = "bytes" -> LdClasses
+    [] k = "string" -> StrClasses
+    [] k = "nested" -> NestClasses
+    [] k \in Packed -> PackClasses
+    [] k = "rbytes" -> RepClasses
+    [] k = "rstring" -> StrClasses \cup {"emptyelem"}
+    [] k = "rnested" -> NestClasses \cup {"emptyelem"}
+
+DevBool(num, v, c) ==
+  LET K == Key(num, 0) IN
+  CASE c = "padkey" -> Pad(K) \o <<v>>
+    [] c = "padkeymax" -> PadMax(K) \o <<v>>
+    [] c = "wtbit2" -> Key(num, 4) \o <<v>>
+    [] c = "trunc" -> K
+    [] c = "wrongnum" -> Key(num + 16, 0) \o <<v>>
+    [] c = "wrongwt" -> Key(num, 2) \o <<v>>
+    [] c = "badwt" -> Key(num, 5) \o <<v>>
+    [] c = "missing" -> <<>>
+    [] c = "dup" -> K \o <<v>> \o K \o <<v>>
+    [] c = "keyhi32" -> KeyHi32(num, 0) \o <<v>>
+    [] c = "keyhi35" -> KeyHi35(num, 0) \o <<v>>
+    [] c = "boolbad" -> K \o <<2>>                                \* a byte that is neither 0 nor 1
+    [] c = "boolff" -> K \o <<255>>
+    [] c = "boolpad" -> K \o <<v + 128, 0>>                       \* the same truth value as a two-byte varint
+
+\* a nested message (the envelope deviates like a length-delimited field; in*: the message inside deviates, its length is right)
+DevNest(num, sub, v, c) ==
+  LET inner == Encode(sub, v)  n == Len(sub) IN
+  CASE c = "inmissing" -> DevLd(num, Encode(SubSeq(sub, 1, n - 1), SubSeq(v, 1, n - 1)), "canon")   \* last inner field left out
+    [] c = "intrail" -> DevLd(num, inner \o Key(sub[n][1] + 1, 0) \o <<0>>, "canon")             \* unknown field inside the length
+    [] c = "inpad" -> DevLd(num, <<inner[1] + 128, 0>> \o Tail(inner), "canon")                  \* first inner key padded
+    [] c = "inswap" -> DevLd(num, EncField(sub[2], v[2]) \o EncField(sub[1], v[1]), "canon")     \* inner fields out of order
+    [] c = "inlenpast" -> IF Len(v[n]) >= 127 THEN DevLd(num, inner, "lenshort")
+                          ELSE DevLd(num, SubSeq(inner, 1, Len(inner) - 1 - Len(v[n])) \o <<Len(v[n]) + 1>> \o v[n], "canon")
+                                                                 \* last inner bytes field claims one byte beyond the nested message
+    [] OTHER -> DevLd(num, inner, c)
+
+ItemZero(ek) == IF ek = "bool" THEN 0 ELSE IF ek = "sint" THEN <<0, <<>>>> ELSE <<>>
+ItemBad(ek, v) == IF ek = "bool" THEN <<2>> ELSE IF ek = "uint32" THEN Varint(Plus2p32(v)) ELSE Ovf10
+ItemPad(ek, v) == IF ek = "bool" THEN <<v + 128, 0>> ELSE Pad(Item(ek, v))
+DevPacked(num, k, v, c) ==
+  LET ek == ElemKind(k)  K == Key(num, 2)
+      items(n) == Flat([i \in 1..n |-> Item(ek, v[i])]) IN
+  IF c = "emptypacked" THEN K \o <<0>>                           \* an empty array is written as nothing at all
+  ELSE IF v = <<>> THEN (CASE c = "itempad" -> DevLd(num, ItemPad(ek, ItemZero(ek)), "canon")      \* a single deviant item
+                           [] c = "itembad" -> DevLd(num, ItemBad(ek, ItemZero(ek)), "canon")
+                           [] OTHER -> DevLd(num, <<>>, c))
+  ELSE CASE c = "itempad" -> DevLd(num, items(Len(v) - 1) \o ItemPad(ek, v[Len(v)]), "canon")
+         [] c = "itembad" -> DevLd(num, items(Len(v) - 1) \o ItemBad(ek, v[Len(v)]), "canon")
+         [] OTHER -> DevLd(num, items(Len(v)), c)
+
+Dev2Field(f, v, c) ==
+  LET num == f[1]  k == f[2] IN
+  IF c = "canon" THEN EncField(f, v) ELSE
+  CASE k = "uint" -> DevVar(num, v, c)
+    [] k = "uint32" -> IF c = "over32" THEN Key(num, 0) \o Varint(Plus2p32(v)) ELSE DevVar(num, v, c)   \* value + 2^32
+    [] k = "sint" -> DevVar(num, ZigZag(v), c)
+    [] k = "bool" -> DevBool(num, v, c)
+    [] k \in {"bytes", "string"} -> DevLd(num, v, c)
+    [] k = "nested" -> DevNest(num, f[3], v, c)
+    [] k \in Packed -> DevPacked(num, k, v, c)
+    [] k \in {"rbytes", "rstring"} ->
+         IF c = "missing" THEN <<>>
+         ELSE IF v = <<>> THEN DevLd(num, <<>>, c)
+         ELSE Flat([i \in 1..(Len(v) - 1) |-> DevLd(num, v[i], "canon")]) \o DevLd(num, v[Len(v)], c)
+    [] k = "rnested" ->
+         IF c = "missing" \/ v = <<>> THEN <<>>
+         ELSE Flat([i \in 1..(Len(v) - 1) |-> DevLd(num, Encode(f[3], v[i]), "canon")]) \o DevNest(num, f[3], v[Len(v)], c)
+
+Globals2 == {"trail0", "trailkey", "lead0", "cut1", "cut2", "cut3", "cut5"}
+Dev2Msg(si, bi, fi, c) ==
+  LET s == S2Schemas[si]  v == S2Bases[si][bi]  m == Encode(s, v) IN
+  IF fi = 0
+  THEN CASE c = "trail0" -> m \o <<0>>
+         [] c = "trailkey" -> m \o Key(s[Len(s)][1] + 1, 0) \o <<0>>
+         [] c = "lead0" -> <<0>> \o m
+         [] c = "cut1" -> SubSeq(m, 1, Len(m) - 1)
+         [] c = "cut2" -> SubSeq(m, 1, Len(m) - 2)
+         [] c = "cut3" -> SubSeq(m, 1, Len(m) - 3)
+         [] c = "cut5" -> IF Len(m) >= 5 THEN SubSeq(m, 1, Len(m) - 5) ELSE <<>>
+  ELSE Flat([i \in 1..Len(s) |-> IF i = fi THEN Dev2Field(s[i], v[i], c) ELSE EncField(s[i], v[i])])
+Dev2Choices ==
+  IF Mode # "deviants" THEN {} ELSE
+  UNION { UNION { {<<si, bi, 0, g>> : g \in Globals2}
+                  \cup UNION { {<<si, bi, fi, c>> : c \in Classes2Of(S2Schemas[si][fi]) \cup {"canon"}} : fi \in 1..Len(S2Schemas[si]) }
+                  : bi \in 1..Len(S2Bases[si]) }
+          : si \in 1..Len(S2Schemas) }
 
 (* ------------------------------- lisk32 ------------------------------- *)
 Addr(k) ==       \* a few dozen deterministic 20-byte addresses
@@ -183,7 +329,7 @@ Addr(k) ==       \* a few dozen deterministic 20-byte addresses
 (* ------------------------------ behaviour ----------------------------- *)
 Init == CASE Mode = "canon" -> x = <<>>
           [] Mode = "roundtrip" -> x \in UNION {{<<si, v>> : v \in Values(RtSchemas[si], 1)} : si \in 1..Len(RtSchemas)}
-          [] Mode = "deviants" -> x \in DevChoices
+          [] Mode = "deviants" -> (x \in DevChoices \/ x \in Dev2Choices)
           [] Mode = "lisk32" -> x \in {<<k, 0>> : k \in 1..NAddr}
 Next == \/ /\ Mode = "canon" /\ Len(x) < MaxLen
            /\ \E a \in Alphabet : x' = Append(x, a)
@@ -207,12 +353,22 @@ RoundTrip ==
     /\ Decode(s, e) = v
 
 Deviant ==
-  Mode = "deviants" =>
+  (Mode = "deviants" /\ Len(x) = 3) =>
     LET m == DevMsg(TxBases[x[1]], x[2], x[3])
         r == StrictParse(TxSchema, m) IN
     /\ (r.ok => WellTyped(TxSchema, r.v) /\ Encode(TxSchema, r.v) = m)        \* accepted => canonical
     /\ (x[2] = AllCanon /\ x[3][1] = "none" => r.ok /\ r.v = TxBases[x[1]])   \* the canonical one is accepted
     /\ PrintT(<<"DV", ToJson([base |-> x[1], cls |-> x[2], glob |-> x[3][1], k |-> x[3][2], b |-> m, ok |-> B(r.ok)])>>)
+
+Deviant2 ==
+  (Mode = "deviants" /\ Len(x) = 4) =>
+    LET s == S2Schemas[x[1]]
+        m == Dev2Msg(x[1], x[2], x[3], x[4])
+        r == StrictParse(s, m) IN
+    /\ (r.ok => WellTyped(s, r.v) /\ Encode(s, r.v) = m)                    \* accepted => canonical
+    /\ (x[4] = "canon" => r.ok /\ r.v = S2Bases[x[1]][x[2]])                \* the canonical one is accepted
+    /\ PrintT(<<"DV2", ToJson([type |-> S2Names[x[1]], base |-> x[2], fi |-> x[3], kind |-> IF x[3] = 0 THEN "message" ELSE s[x[3]][2],
+                                cls |-> x[4], b |-> m, ok |-> B(r.ok)])>>)
 
 Lisk ==
   Mode = "lisk32" =>
@@ -228,4 +384,6 @@ Lisk ==
 StrSamples == {<<255>>, <<195, 40>>, <<192, 175>>, <<101, 204, 129>>, <<226, 132, 171>>, <<65, 204, 138>>, <<195, 169>>,
                <<116, 111, 107>>, <<>>, <<240, 159, 152, 128>>, <<237, 160, 128>>, <<244, 144, 128, 128>>}
 ASSUME \A st \in StrSamples : PrintT(<<"STR", ToJson([b |-> st, utf8 |-> B(Utf8Valid(st)), nfc |-> B(IsNFC(st))])>>)
+\* the S2 schemas as the specification sees them: the harness compares them with the schemas of the real types (reflection)
+ASSUME Mode = "deviants" => \A i \in 1..Len(S2Schemas) : PrintT(<<"SCH", ToJson([type |-> S2Names[i], schema |-> S2Schemas[i]])>>)
 =============================================================================
